@@ -22,7 +22,7 @@ theorem wrap_unwrap (c : Ciphers) (hc : c.Lawful) (kbpk : Bytes) (h : Header) (h
     (hwrap : wrapFn c kbpk (.obj h) key mask entropy = .ok s) :
     unwrapFn c kbpk s = .ok (h, key) := by
   have hwrap' : KB.wrap c { kbpk := kbpk, header := h } key mask entropy = .ok s := hwrap
-  obtain ⟨bs, ml, n, blocks, hdr, enc, mac, clear, hbs, hml, hbs8, hbd, hhdr, hle, hs, henc, hmac, hcl, _, hun⟩ :=
+  obtain ⟨bs, ml, n, blocks, hdr, enc, mac, clear, hbs, hml, hbs8, hbd, hhdr, hle, hs, henc, hmac, hcl, _, hun, _⟩ :=
     (wrap_facts c hc _ key mask entropy s hwrap').facts
   simp only at hbs hml hbd hhdr hun
   obtain ⟨h16, hpos, hb16⟩ := bs_dvd16 bs hbs8
